@@ -64,6 +64,9 @@ CHECKS = {
  "C04": ("metamorphic + absolute reference monitor: several renderings of one SI description (units declared or inherited at every nesting level, all 1100 systems, bare / string / UnitValue / unit-array forms, constructor and dictionary readers) must give the same state, rate of change and Euler trajectory; icontract conversion contracts run underneath",
          "Each physical description is rendered 4-8 times with unit systems drawn per nesting level and per field form, plus a random output units system; state, chemostats, compute_dstatedt and a 20-step Euler trajectory are converted to (molecule, s) by the harness' own SI table and compared between renderings and with the description / reference rate law (1e-9 of the magnitudes involved); stochastic output must come back in the requested units.",
          "Rounding-proof step grid: requested times and t_max at (k+1/2) dt. Renderings whose bare numbers leave 1e+-250 are skipped and counted.", "DESIGN.md 2/C04"),
+ "C20": ("mutation-operator monitor: every class of invalid input listed in the statement is applied at every site of otherwise valid generated models (constructor and dictionary forms); each mutated call must raise, its valid twin must be accepted; for position / species accessors the state and chemostat arrays are snapshot before and after",
+         "About 250k invalid calls per quick run over 8 classes (dictionary keys, wrong dimensions in every dimensioned field, unsupported unit symbols, grid sizes and environment maps, enumerations, every out-of-range position form on 64 grid shapes and graphs through spaces / system accessors / kinetics / trajectories, unknown species, coarse-graining map rules); a mutation counts only when its unmutated twin is accepted.",
+         "State change after a call that was rejected for another part of its input (set_k, set_boundary_conditions) is observed and counted but not judged: the statement promises rejection and no access to a different entry, not atomicity.", "DESIGN.md 2/C20"),
 }
 
 PENDING = {
